@@ -57,9 +57,14 @@ func parked(dump string) (bool, string) {
 		head := strings.SplitN(g, "\n", 2)[0]
 		waiting := strings.Contains(head, "sync.Mutex.Lock") || strings.Contains(head, "sync.RWMutex") || strings.Contains(head, "semacquire") ||
 			strings.Contains(head, "chan send") || strings.Contains(head, "chan receive") || strings.Contains(head, "select")
-		if waiting && strings.Contains(g, "reservoir/cache") {
-			return true, g
+		if !waiting || !strings.Contains(g, "reservoir/cache") {
+			continue
 		}
+		// the janitor's own loop waiting for its next tick is not a parked operation
+		if lines := strings.Split(g, "\n"); strings.Contains(head, "[select") && len(lines) > 1 && strings.Contains(lines[1], "cacheJanitor") && strings.Contains(lines[1], ".start.func") {
+			continue
+		}
+		return true, g
 	}
 	return false, ""
 }
